@@ -73,6 +73,7 @@ type Chan struct {
 	ctx    *Obj
 	closed bool
 	id     int
+	timer  *Obj // time.Timer / time.After channel: str "pending" | "fired" | "stopped" in timer.Kind2
 }
 
 // Obj is an opaque environment object (net.Conn stub, listener, bufio, ctx, error, ...).
